@@ -405,6 +405,20 @@ static void c18_order(vr_rng *r)
           else { struct trip *a = malloc(m * sizeof *a), *b = malloc(m * sizeof *b); memcpy(a, tr, m * sizeof *a); memcpy(b, tr2, m * sizeof *b); qsort(a, m, sizeof *a, cmp_trip); qsort(b, m, sizeof *b, cmp_trip);
                  if (memcmp(a, b, m * sizeof *a) != 0) vr_violation("C18/ts-sort-detached", "sort_x separated samples from their time/weight (n=%zu, %s)", m, gname[cls]); free(a); free(b); } }
         VR_CNT("ts_sorts");
+        /* a copy taken in any order is exact, and order statistics do not depend on the storage order */
+        if (vr_nviol == 0) {
+            struct cmb_timeseries t2; memset(&t2, 0, sizeof t2);
+            cmb_timeseries_copy(&t2, ts);
+            const struct cmb_dataset *d2 = (const struct cmb_dataset *)&t2;
+            if (d2->count != m || memcmp(d2->xa, td->xa, m * 8) || memcmp(t2.ta, ts->ta, m * 8) || memcmp(t2.wa, ts->wa, m * 8)) vr_violation("C18/ts-copy", "copy of a time series sorted by x differs from its source (n=%zu)", m);
+            cmb_timeseries_reset(&t2);
+            if (vr_nviol == 0) {
+                double med = cmb_timeseries_median(ts);
+                double tot = 0, below = 0, above = 0; for (size_t k = 0; k < m; k++) { tot += tr[k].w; if (tr[k].x < med) below += tr[k].w; if (tr[k].x > med) above += tr[k].w; }
+                if (tot > 0 && (below > 0.5 * tot * (1 + 1e-12) || above > 0.5 * tot * (1 + 1e-12))) vr_violation("C18/ts-median/after-sort", "weighted median %g of a series already sorted by x (%zu samples, weights %s): weight below %g, above %g of %g", med, m, wn[wpat], below, above, tot);
+                VR_CNT("ts_medians_after_sort");
+            }
+        }
         if (vr_nviol == 0 && wpat != 3 && finalized == false) {   /* distinct times: sort_t restores the original */
             cmb_timeseries_sort_t(ts);
             for (size_t k = 0; k < m; k++) if (td->xa[k] != tr[k].x || ts->ta[k] != tr[k].t || ts->wa[k] != tr[k].w) { vr_violation("C18/ts-sort-t", "sort_t did not restore sample %zu", k); break; }
